@@ -192,8 +192,14 @@ pub fn k_histories(sizes: &[usize], tmax: usize) -> Vec<Vec<String>> {
     for &n in sizes {
         let key = |i: usize| 2 * i + 1;
         for (oi, (_, ins)) in orders(n).into_iter().enumerate() {
-            for pat in 0..3usize {
-                let exp = |i: usize| 1 + (i * (3 + 2 * pat) + oi) % tmax;
+            for pat in 0..5usize {
+                // patterns 0..2 interleave the expirations; 3 and 4 make them a monotone function of the key
+                // (low keys expire first / last), so that one purge meets a long run of expired entries
+                let exp = |i: usize| match pat {
+                    3 => 1 + (i * tmax / n).min(tmax - 1),
+                    4 => tmax - (i * tmax / n).min(tmax - 1),
+                    _ => 1 + (i * (3 + 2 * pat) + oi) % tmax,
+                };
                 let mut h: Vec<String> = ins.iter().map(|&i| format!("Ins({},{})", key(i), exp(i))).collect();
                 let step = (n / 6).max(1);
                 for t in 1..=tmax {
